@@ -318,6 +318,7 @@ impl<'ast> VisitorMut<'ast> for BindingEscapeAnalyzer<'_> {
         &mut self,
         node: &'ast mut FunctionExpression,
     ) -> ControlFlow<Self::BreakTy> {
+        self.escape_name_scope(node.name_scope.as_ref(), node.contains_direct_eval);
         self.visit_function_like(
             &mut node.parameters,
             &mut node.body,
@@ -330,6 +331,7 @@ impl<'ast> VisitorMut<'ast> for BindingEscapeAnalyzer<'_> {
         &mut self,
         node: &'ast mut GeneratorExpression,
     ) -> ControlFlow<Self::BreakTy> {
+        self.escape_name_scope(node.name_scope.as_ref(), node.contains_direct_eval);
         self.visit_function_like(
             &mut node.parameters,
             &mut node.body,
@@ -342,6 +344,7 @@ impl<'ast> VisitorMut<'ast> for BindingEscapeAnalyzer<'_> {
         &mut self,
         node: &'ast mut AsyncFunctionExpression,
     ) -> ControlFlow<Self::BreakTy> {
+        self.escape_name_scope(node.name_scope.as_ref(), node.contains_direct_eval);
         self.visit_function_like(
             &mut node.parameters,
             &mut node.body,
@@ -354,6 +357,7 @@ impl<'ast> VisitorMut<'ast> for BindingEscapeAnalyzer<'_> {
         &mut self,
         node: &'ast mut AsyncGeneratorExpression,
     ) -> ControlFlow<Self::BreakTy> {
+        self.escape_name_scope(node.name_scope.as_ref(), node.contains_direct_eval);
         self.visit_function_like(
             &mut node.parameters,
             &mut node.body,
@@ -540,6 +544,16 @@ impl<'ast> VisitorMut<'ast> for BindingEscapeAnalyzer<'_> {
 }
 
 impl BindingEscapeAnalyzer<'_> {
+    /// The binding of a named function expression lives in a scope of its own outside the
+    /// function scopes; code evaluated by a direct `eval` inside the function can name it.
+    fn escape_name_scope(&self, name_scope: Option<&Scope>, contains_direct_eval: bool) {
+        if let Some(name_scope) = name_scope
+            && (self.direct_eval || contains_direct_eval)
+        {
+            name_scope.escape_all_bindings();
+        }
+    }
+
     fn visit_function_like(
         &mut self,
         parameters: &mut FormalParameterList,
